@@ -298,7 +298,7 @@ def crypto_key(alg):
 
 
 async def mini_as_client(kex, enc, mac, *, hostkey=b'ssh-ed25519', chunk=None, rekey=None, strict=True,
-                         sizes=SIZES, comp=b'none', gex_request=None):
+                         sizes=SIZES, comp=b'none', gex_request=None, asym=None):
     """MiniSSH client against an asyncssh server.  rekey: None | 'mini' | 'asyncssh'."""
     seen_keys = []
     mini = M.MiniSSH('client', kex_algs=[kex], enc_algs=[enc], mac_algs=[mac] if mac else None,
@@ -306,8 +306,16 @@ async def mini_as_client(kex, enc, mac, *, hostkey=b'ssh-ed25519', chunk=None, r
                      host_key=lambda blob: seen_keys.append(blob) or True)
     if gex_request is not None:
         mini.gex_request = tuple(gex_request)
+    for k_, v_ in (asym or {}).items():
+        setattr(mini, k_, v_)
     link = Link(mini, chunk)
     kw = alg_kw(kex, enc, mac, comp)
+    if asym:
+        # the asyncssh end offers everything the independent peer lists for either direction
+        macs_ = [a for k_ in ('mac_algs_cs', 'mac_algs_sc') for a in (asym.get(k_) or ([mac] if mac else []))]
+        encs_ = [a for k_ in ('enc_algs_cs', 'enc_algs_sc') for a in (asym.get(k_) or [enc])]
+        kw['mac_algs'] = list(dict.fromkeys(a.decode() for a in macs_))
+        kw['encryption_algs'] = list(dict.fromkeys(a.decode() for a in encs_))
     if rekey == 'asyncssh':
         kw['rekey_bytes'] = 8192
     key_alg = 'ssh-rsa' if hostkey.startswith(b'rsa-') else hostkey.decode()
@@ -317,7 +325,8 @@ async def mini_as_client(kex, enc, mac, *, hostkey=b'ssh-ed25519', chunk=None, r
     _CONN_OF[id(mini)] = link.conn
     try:
         await link.until(lambda: mini.kex_count == 1, 'initial key exchange')
-        check_negotiated(mini, kex, enc, mac)
+        if not asym:
+            check_negotiated(mini, kex, enc, mac)
         if mini.strict != strict or mini.negotiated['hostkey'] != hostkey or seen_keys != [mini.host_key_blob]:
             raise Failure('strict/hostkey state wrong')
         if asyncssh.import_public_key(asyncssh_key(key_alg).export_public_key()).public_data != mini.host_key_blob:
@@ -382,14 +391,22 @@ Link.serve_client = _serve_client
 
 
 async def mini_as_server(kex, enc, mac, *, hostkey=b'ssh-ed25519', chunk=None, rekey=None, strict=True,
-                         sizes=SIZES, k_shape=None, comp=b'none'):
+                         sizes=SIZES, k_shape=None, comp=b'none', asym=None):
     """MiniSSH server against an asyncssh client."""
     mini = M.MiniSSH('server', host_key=crypto_key(b'ssh-rsa' if hostkey.startswith(b'rsa-') else hostkey),
                      kex_algs=[kex], enc_algs=[enc], mac_algs=[mac] if mac else None, hostkey_algs=[hostkey],
                      strict_kex=strict, comp_algs=(comp,))
     mini.k_shape = k_shape
+    for k_, v_ in (asym or {}).items():
+        setattr(mini, k_, v_)
     link = Link(mini, chunk)
     kw = alg_kw(kex, enc, mac, comp)
+    if asym:
+        # the asyncssh end offers everything the independent peer lists for either direction
+        macs_ = [a for k_ in ('mac_algs_cs', 'mac_algs_sc') for a in (asym.get(k_) or ([mac] if mac else []))]
+        encs_ = [a for k_ in ('enc_algs_cs', 'enc_algs_sc') for a in (asym.get(k_) or [enc])]
+        kw['mac_algs'] = list(dict.fromkeys(a.decode() for a in macs_))
+        kw['encryption_algs'] = list(dict.fromkeys(a.decode() for a in encs_))
     if rekey == 'asyncssh':
         kw['rekey_bytes'] = 8192
     connect = asyncio.ensure_future(asyncssh.connect(
@@ -400,7 +417,8 @@ async def mini_as_server(kex, enc, mac, *, hostkey=b'ssh-ed25519', chunk=None, r
         await link.until(connect.done, 'asyncssh connect()', serve=link.serve)
         conn = connect.result()
         _CONN_OF[id(mini)] = conn
-        check_negotiated(mini, kex, enc, mac)
+        if not asym:
+            check_negotiated(mini, kex, enc, mac)
         if mini.strict != strict or mini.negotiated['hostkey'] != hostkey:
             raise Failure('strict/hostkey state wrong')
         opening = asyncio.ensure_future(conn.create_session(CollectClientSession, encoding=None))
